@@ -374,7 +374,6 @@ pub fn replay(doc: &Value) -> i32 {
     match judge_ops(&mapping, &file, &ops, None) {
         Some((class, msg)) => {
             println!("reproduced: class={} :: {}", class, msg);
-            println!("VIOLATION property=C11 replay=(replayed)");
             1
         }
         None => {
